@@ -105,6 +105,8 @@ func (c *Ctx) c07Chunk(gs []*gast.Grammar, rng *rand.Rand) {
 	// decide
 	var accepted []*gast.Grammar
 	var accIdx []int
+	var acyclic []*gast.Grammar
+	defer func() { c.c07RunAcyclic(acyclic, rng) }()
 	for i, g := range gs {
 		inf := infos[i]
 		rejectedLR := inf.exit == 5 && strings.Contains(inf.stderr, "left recursion")
@@ -130,6 +132,9 @@ func (c *Ctx) c07Chunk(gs []*gast.Grammar, rng *rand.Rand) {
 				Grammar: texts[i], Sig: c07Sig(g, "rejected")})
 		case inf.exit == 0 && !inf.static:
 			c.CovAdd("accepted_and_acyclic", 1)
+			if g.KindsUsed()[gast.Throw]+g.KindsUsed()[gast.Recovery] == 0 {
+				acyclic = append(acyclic, g)
+			}
 			if i%50 == 7 {
 				c.Sample(map[string]any{"grammar": gast.Short(g), "pigeon": "accepted", "model": "no first-call cycle"})
 			}
@@ -193,6 +198,74 @@ func (c *Ctx) c07Chunk(gs []*gast.Grammar, rng *rand.Rand) {
 	}
 }
 
+// c07RunAcyclic is the consequence clause observed directly: the parsers of accepted grammars in
+// which the independent analysis finds no cycle are run under Debug(true) (with a budget that stops
+// a runaway descent) and their own traces must not show a rule entered at an offset at which it is
+// already being evaluated - whatever the reason (a terminal that matches without consuming at the
+// end of input makes a right recursion re-enter, for instance).
+func (c *Ctx) c07RunAcyclic(gs []*gast.Grammar, rng *rand.Rand) {
+	if len(gs) == 0 {
+		return
+	}
+	if lim := c.N(70, 400); len(gs) > lim {
+		// strata first (they are at the front of the first chunk), then an even sample
+		keep := append([]*gast.Grammar{}, gs[:lim/2]...)
+		step := (len(gs) - lim/2) / (lim / 2)
+		if step < 1 {
+			step = 1
+		}
+		for i := lim / 2; i < len(gs) && len(keep) < lim; i += step {
+			keep = append(keep, gs[i])
+		}
+		gs = keep
+	}
+	bt := c.BuildUnits(gs, [][]string{{}, {"-optimize-basic-latin"}}, false, nil)
+	defer bt.Close()
+	var cases []*mon.Case
+	type ck struct {
+		u  *Unit
+		in []byte
+		e  string
+	}
+	keys := map[string]ck{}
+	for _, u := range bt.Units {
+		if !u.OK {
+			continue
+		}
+		alpha := u.G.Alphabet()
+		ins := [][]byte{{}, []byte("a"), []byte("+="), []byte("ab\n"), []byte("a\xff"), []byte("\xef\xbf\xbd"), []byte("é€")}
+		for i := 0; i < 8; i++ {
+			s := u.G.Sentence(rng, u.G.Rules[rng.Intn(len(u.G.Rules))].Name, alpha, 5)
+			if i%2 == 1 {
+				s = gast.Mutate(rng, s, alpha, true)
+			}
+			ins = append(ins, s)
+		}
+		for i, in := range ins {
+			e := u.G.Rules[i%len(u.G.Rules)].Name
+			id := fmt.Sprintf("ac/%s/%d", u.Pkg, i)
+			keys[id] = ck{u, in, e}
+			cases = append(cases, &mon.Case{ID: id, Pkg: u.Pkg, Input: in, Entry: e, Debug: true, AllowInvalid: i%2 == 0, MaxExpr: 4000, MaxEvents: 10})
+		}
+	}
+	res := bt.Run(cases, batch.RunOpts{MaxDeaths: 4})
+	for _, cs := range cases {
+		r := res[cs.ID]
+		k := keys[cs.ID]
+		c.Eval(1)
+		if r == nil || r.Dbg == nil {
+			c.Inconclusive("no_debug_result")
+			continue
+		}
+		c.CovAdd("acyclic_parses_traced", 1)
+		c.CovAdd("acyclic_trace_lines", r.Dbg.Lines)
+		if r.Dbg.Reentry != "" {
+			c.Report(&Violation{Class: "C07/reentry-in-acyclic-grammar", Summary: fmt.Sprintf("a parser generated without -support-left-recursion from a grammar without any first-call cycle re-enters %s while it is already being evaluated at that offset (its own Debug trace; input %q, entrypoint %q, flags [%s]); grammar %q",
+				strings.TrimPrefix(r.Dbg.Reentry, "parseRule "), k.in, k.e, k.u.FlagID, gast.Short(k.u.G)), Grammar: k.u.Text, Flags: k.u.Flags, Input: k.in, Case: cs})
+		}
+	}
+}
+
 // c07Sig classifies a silently accepted grammar under the known findings F13 / F18 with an
 // emulation of pigeon's own analysis (c07emu.go); anything else is a violation.
 func c07Sig(g *gast.Grammar, dir string) []string {
@@ -238,7 +311,14 @@ func (c *Ctx) runKnownC07() {
 func c07Strata() []*gast.Grammar {
 	mk := func(rules ...*gast.Rule) *gast.Grammar { return &gast.Grammar{Rules: rules} }
 	r := func(n string, e *gast.Expr) *gast.Rule { return &gast.Rule{Name: n, Expr: e} }
+	rr := func(t *gast.Expr) *gast.Grammar {
+		// right recursion through one terminal: fine as long as the terminal cannot match without consuming
+		return mk(r("S", gast.C(gast.S(t, gast.Ref("S")), gast.L(""))))
+	}
 	return []*gast.Grammar{
+		rr(gast.Cl(gast.Chars("\ufffd"))), rr(gast.Cl(&gast.ClassSpec{Ranges: [][2]rune{{0x80, 0xffff}}})), rr(gast.Cl(&gast.ClassSpec{UClasses: []string{"So"}})), rr(gast.Cl(&gast.ClassSpec{UClasses: []string{"S"}, Chars: []rune("a")})),
+		rr(gast.Cl(&gast.ClassSpec{Chars: []rune("\ufffdé"), IgnoreCase: true})), rr(gast.Cl(&gast.ClassSpec{Chars: []rune("a"), Inverted: true})), rr(gast.L("\ufffd")), rr(gast.Dot()),
+		rr(gast.Cl(&gast.ClassSpec{Chars: []rune("+=\ufffd")})),
 		mk(r("S", gast.C(gast.S(gast.AndE(gast.Ref("S")), gast.L("a")), gast.L("b")))),
 		mk(r("S", gast.C(gast.S(gast.NotE(gast.Ref("S")), gast.L("a")), gast.L("b")))),
 		mk(r("S", gast.C(gast.NotE(gast.Dot()), gast.S(gast.Ref("W"), gast.Ref("S")))), r("W", gast.Star(gast.Cl(gast.Chars(" \t"))))),
